@@ -1,0 +1,132 @@
+// Copyright 2020-2025 Buf Technologies, Inc.
+//
+// Licensed under the Apache License, Version 2.0 (the "License");
+// you may not use this file except in compliance with the License.
+// You may obtain a copy of the License at
+//
+//      http://www.apache.org/licenses/LICENSE-2.0
+//
+// Unless required by applicable law or agreed to in writing, software
+// distributed under the License is distributed on an "AS IS" BASIS,
+// WITHOUT WARRANTIES OR CONDITIONS OF ANY KIND, either express or implied.
+// See the License for the specific language governing permissions and
+// limitations under the License.
+
+//go:build verif
+
+package storage
+
+// Contracts for the gocv verifier (see /verif/DESIGN.md). Comment-only: with
+// the build tag off this file is not part of any build, with the tag on it
+// declares nothing.
+//
+// ---- trusted sinks (C15): an I/O callee raises ghost.fail iff it reports an error
+//
+//@ trusted func (WriteBucket) Put(ctx, path, options) (w, err)
+//@   modifies ghost.fail
+//@   ensures  ghost.fail == (old(ghost.fail) || err != nil)
+//@   ensures  err == nil ==> w != nil
+//@ trusted func (ReadBucket) Get(ctx, path) (r, err)
+//@   modifies ghost.fail
+//@   ensures  ghost.fail == (old(ghost.fail) || err != nil)
+//@   ensures  err == nil ==> r != nil
+//@ trusted func (WriteObject) SetExternalPath(externalPath) (err)
+//@   modifies ghost.fail
+//@   ensures  ghost.fail == (old(ghost.fail) || err != nil)
+//@ trusted func (WriteObject) SetLocalPath(localPath) (err)
+//@   modifies ghost.fail
+//@   ensures  ghost.fail == (old(ghost.fail) || err != nil)
+//@ trusted pure func (ObjectInfo) Path() (r)
+//@ trusted pure func (ObjectInfo) ExternalPath() (r)
+//@ trusted pure func (ObjectInfo) LocalPath() (r)
+//@ trusted pure func PutWithAtomic() (r)
+//
+// ---- copy.go (C15): a failing sink is always reported
+//
+//@ inline func newCopyOptions
+//
+//@ func copyReadObject
+//@   property C15
+//@   modifies ghost.fail
+//@   ensures  reported: ghost.fail && !old(ghost.fail) ==> retErr != nil
+//@   canary ensures retErr == nil
+//
+//@ func copyPath
+//@   property C15
+//@   modifies ghost.fail
+//@   ensures  reported: ghost.fail && !old(ghost.fail) ==> retErr != nil
+//@   canary ensures retErr == nil
+//
+//@ func CopyReader
+//@   property C15
+//@   modifies ghost.fail
+//@   ensures  reported: ghost.fail && !old(ghost.fail) ==> retErr != nil
+//@   canary ensures retErr == nil
+//
+//@ func CopyReadObject
+//@   property C15
+//@   modifies ghost.fail, heap
+//@   ensures  reported: ghost.fail && !old(ghost.fail) ==> retErr != nil
+//@   loop 0 invariant ghost.fail ==> old(ghost.fail)
+//
+//@ func CopyPath
+//@   property C15
+//@   modifies ghost.fail, heap
+//@   ensures  reported: ghost.fail && !old(ghost.fail) ==> err != nil
+//@   loop 0 invariant ghost.fail ==> old(ghost.fail)
+//
+//@ func Copy(ctx, from, to, options) (n, err)
+//@   property C15
+//@   modifies ghost.fail, heap
+//@   ensures  reported: ghost.fail && !old(ghost.fail) ==> err != nil
+//@   loop 0 invariant ghost.fail ==> old(ghost.fail)
+//
+// Every job handed to thread.Parallelize reports the failures it raises
+// (closure 0 is the job literal); AllPaths is a read-only walk.
+//@ func copyPaths(ctx, from, to, copyExternalAndLocalPaths, atomicOpt) (n, err)
+//@   property C15
+//@   modifies ghost.fail, heap
+//@   ensures  reported: ghost.fail && !old(ghost.fail) ==> err != nil
+//@   loop 0 invariant ghost.fail ==> old(ghost.fail)
+//@   closure 0 ensures job-reports: ghost.fail && !old(ghost.fail) ==> err != nil
+//
+// ---- util.go
+//
+//@ trusted iterator func (ReadBucket) Walk(ctx, prefix, f) (err)
+//@   yields via f (objectInfo ObjectInfo)
+//@   modifies ghost.fail
+//@   mayfail
+//
+//@ func AllPaths(ctx, readBucket, prefix) (r, err)
+//@   property C15
+//@   modifies ghost.fail
+//@   ensures  reported: ghost.fail && !old(ghost.fail) ==> err != nil
+//@   closure 0 invariant ghost.fail ==> old(ghost.fail)
+//
+//@ func ReadPath(ctx, readBucket, path) (data, retErr)
+//@   property C15
+//@   modifies ghost.fail
+//@   ensures  reported: ghost.fail && !old(ghost.fail) ==> retErr != nil
+//@   canary ensures retErr == nil
+//
+//@ func PutPath
+//@   property C15
+//@   modifies ghost.fail
+//@   ensures  reported: ghost.fail && !old(ghost.fail) ==> retErr != nil
+//@   canary ensures retErr == nil
+//
+//@ func ForReadObject
+//@   property C15
+//@   modifies ghost.fail, heap
+//@   ensures  reported: ghost.fail && !old(ghost.fail) ==> retErr != nil
+//
+//@ func ForWriteObject
+//@   property C15
+//@   modifies ghost.fail, heap
+//@   ensures  reported: ghost.fail && !old(ghost.fail) ==> retErr != nil
+//
+//@ func WalkReadObjects(ctx, readBucket, prefix, f) (err)
+//@   property C15
+//@   modifies ghost.fail, heap
+//@   ensures  reported: ghost.fail && !old(ghost.fail) ==> err != nil
+//@   closure 0 invariant ghost.fail ==> old(ghost.fail)
